@@ -278,6 +278,7 @@ Proof.
   - destruct (r_waiting s); [left; reflexivity|].
     right. match goal with |- context [pump ?f ?s1] => pose proof (pump_credit f s1) as P end. cbn zeta in P. exact P.
   - left. reflexivity.
+  - left. reflexivity.
   - left. destruct (r_drain s); reflexivity.
   - left. destruct dc; destruct echo; reflexivity.
   - left. destruct (if newest then rev (r_held s) else r_held s) as [|d rest]; [reflexivity|].
@@ -470,6 +471,7 @@ Proof.
   - destruct (r_waiting s); [intros []|].
     match goal with |- context [pump ?f ?s1] => pose proof (pump_credit f s1) as P end. cbn zeta in P.
     destruct P as [P _]. rewrite forallb_forall in P. intros H. specialize (P _ H). discriminate.
+  - intros [].
   - cbn. intros [H|[]]. injection H as <- <- _ _. split; reflexivity.
   - destruct (r_drain s); cbn; [intros []|]. intros [H|[]]. injection H as <- <- _ _. split; reflexivity.
   - destruct dc0; destruct echo; cbn; intros H; try contradiction; destruct H as [H|H]; try contradiction;
@@ -494,3 +496,62 @@ Proof.
     specialize (G _ H). discriminate.
   - intros [].
 Qed.
+
+
+(** * cancelling recv() (C16) *)
+
+(** while a recv() is pending nothing is left in the queue: whatever has arrived has been looked at *)
+Definition drained (s : rstate) : Prop := r_waiting s = true -> r_queue s = [].
+
+Lemma pump_drained fuel : forall s, (length (r_queue s) < fuel)%nat -> drained (fst (pump fuel s)).
+Proof.
+  induction fuel as [|f IH]; intros s Hl; [inversion Hl|]. cbn [pump].
+  destruct (r_waiting s) eqn:Hw; [|cbn; unfold drained; congruence].
+  destruct (r_queue s) as [|x q] eqn:Hq; [cbn; unfold drained; auto|].
+  set (s0 := mkR _ _ _ _ _ _ _ q _ _ _ _).
+  pose proof (process_queue s0 x) as Q. destruct (process s0 x) as [s1 o]. cbn [fst r_queue] in Q.
+  destruct o.
+  - apply IH. rewrite Q. subst s0. cbn [r_queue]. cbn [length] in Hl. apply Nat.succ_lt_mono in Hl. exact Hl.
+  - cbn [fst]. unfold drained, stop_waiting. cbn. discriminate.
+Qed.
+
+Lemma rstep_drained s e : drained s -> drained (fst (rstep s e)).
+Proof.
+  intros D. destruct e; cbn [rstep].
+  - apply pump_drained. unfold fuel_of. cbn [r_queue]. auto.
+  - destruct (r_waiting s) eqn:Hw; [exact D|]. apply pump_drained. unfold fuel_of. cbn [r_queue]. auto.
+  - unfold drained, stop_waiting. cbn. discriminate.
+  - unfold flow_out, drained. cbn. exact D.
+  - destruct (r_drain s); unfold flow_out, drained; cbn; exact D.
+  - destruct dc; unfold drained; cbn; exact D.
+  - destruct (if newest then rev (r_held s) else r_held s) as [|d rest]; [exact D|].
+    unfold dispose_one, processed_more, drop_held, drained.
+    cbn [r_mode r_processed r_waiting r_queue]. destruct (r_mode s) as [|n]; [|destruct (n / 2 <=? _)]; cbn; exact D.
+  - destruct (r_held s) as [|d0 ds]; [exact D|].
+    unfold dispose_all. match goal with |- context [fold_left ?f ?l ?a] => destruct (fold_left f l a) as [u o] end.
+    unfold processed_more, drop_held, drained. cbn [r_mode r_processed r_waiting r_queue].
+    destruct (r_mode s) as [|n]; [|destruct (n / 2 <=? _)]; cbn; exact D.
+  - unfold drained. cbn. exact D.
+Qed.
+
+Lemma rrun_drained es : forall s, drained s -> drained (fst (rrun s es)).
+Proof.
+  induction es as [|e es IH]; intros s D; cbn [rrun]; [exact D|].
+  pose proof (rstep_drained s e D) as D1. destruct (rstep s e) as [s1 o]. cbn [fst] in D1.
+  specialize (IH s1 D1). destruct (rrun s1 es) as [s2 os]. exact IH.
+Qed.
+
+(** dropping a pending recv() and calling recv() again changes nothing: no output, the same state -
+    every delivery, whole or partial, that the cancelled call had taken in is still there *)
+Lemma cancel_then_recv_is_identity s : drained s -> r_waiting s = true ->
+  rrun s [ECancelRecv; ERecv] = (s, [[]; []]).
+Proof.
+  intros D Hw. specialize (D Hw). destruct s. cbn in D, Hw. subst. reflexivity.
+Qed.
+
+(** ... and a cancellation when no recv() is pending does nothing at all *)
+Lemma cancel_idle s : r_waiting s = false -> rstep s ECancelRecv = (s, []).
+Proof. intros Hw. cbn [rstep]. unfold stop_waiting. destruct s. cbn in *. subst. reflexivity. Qed.
+
+Lemma drained_init m second idc : drained (rinit m second idc).
+Proof. unfold drained, rinit. cbn. discriminate. Qed.
